@@ -40,7 +40,7 @@ PROPS = {
                 "fault fired, refusal at capacity, cross-object step); distinct = distinct 64-bit hashes of the executed "
                 "event log (interpreted operations, outcomes and observed states) of non-trivial runs",
         "assumptions": COMMON_ASSUME,
-        "quick": {"flavours": ["chk-O2"], "runs": 400000, "max_seconds": 40},
+        "quick": {"flavours": ["chk-O2"], "runs": 1200000, "max_seconds": 40},
         "thorough": {"flavours": ["chk-O2", "chk-asan", "off-asan", "chk-O0"], "runs": 12000000, "max_seconds": 240},
     },
     "C04": {
@@ -52,7 +52,7 @@ PROPS = {
                 "clamp/refusal clause) and the expected state; size<=capacity and data()[size()]==0 are checked after every step. "
                 "Non-trivial and distinct as for C01",
         "assumptions": COMMON_ASSUME,
-        "quick": {"flavours": ["chk-O2"], "runs": 400000, "max_seconds": 40},
+        "quick": {"flavours": ["chk-O2"], "runs": 1200000, "max_seconds": 40},
         "thorough": {"flavours": ["chk-O2", "chk-asan", "off-asan", "chk-O0"], "runs": 12000000, "max_seconds": 240},
     },
     "C07": {
@@ -65,7 +65,7 @@ PROPS = {
                 "flag / index, value, every provided relational operator against every pool object, nullopt and values, "
                 "get_if/holds_alternative and one- and two-variant visit are compared; non-trivial and distinct as for C01",
         "assumptions": COMMON_ASSUME + ["std::expected is C++23: a 10-line (has_value, value) model stands in for it; the variant model is (index, value) with std::variant's index-then-value ordering"],
-        "quick": {"flavours": ["chk-O2"], "runs": 300000, "max_seconds": 40},
+        "quick": {"flavours": ["chk-O2"], "runs": 1000000, "max_seconds": 40},
         "thorough": {"flavours": ["chk-O2", "chk-asan", "off-asan", "chk-O0"], "runs": 10000000, "max_seconds": 240},
     },
     "C09": {
@@ -77,7 +77,7 @@ PROPS = {
                 "upper_bound equal_range, homogeneous and heterogeneous) is compared with std::set for every key of the universe "
                 "and strict ordering is checked with the set's own comparator; non-trivial and distinct as for C01",
         "assumptions": COMMON_ASSUME,
-        "quick": {"flavours": ["chk-O2"], "runs": 300000, "max_seconds": 40},
+        "quick": {"flavours": ["chk-O2"], "runs": 1000000, "max_seconds": 40},
         "thorough": {"flavours": ["chk-O2", "chk-asan", "off-asan", "chk-O0"], "runs": 10000000, "max_seconds": 240},
     },
     "C17": {
@@ -90,7 +90,7 @@ PROPS = {
                 "with std::bitset<W>; non-trivial = >=3 state-changing steps and >=1 boundary event (became all-ones / all-zero, "
                 "fault fired, cross-object step); distinct = distinct event-log hashes of non-trivial runs",
         "assumptions": COMMON_ASSUME,
-        "quick": {"flavours": ["chk-O2"], "runs": 300000, "max_seconds": 40},
+        "quick": {"flavours": ["chk-O2"], "runs": 1000000, "max_seconds": 40},
         "thorough": {"flavours": ["chk-O2", "chk-asan", "off-asan", "chk-O0"], "runs": 8000000, "max_seconds": 240},
     },
     "C20": {
@@ -104,7 +104,7 @@ PROPS = {
                 "often, argument values, addresses and value categories, result) and pairs/tuples against std::pair / std::tuple; "
                 "non-trivial and distinct as for C01",
         "assumptions": COMMON_ASSUME,
-        "quick": {"flavours": ["chk-O2"], "runs": 300000, "max_seconds": 40},
+        "quick": {"flavours": ["chk-O2"], "runs": 1000000, "max_seconds": 40},
         "thorough": {"flavours": ["chk-O2", "chk-asan", "off-asan", "chk-O0"], "runs": 8000000, "max_seconds": 240},
     },
     "C02": {
@@ -115,7 +115,7 @@ PROPS = {
                 "patterns in the arena, under ASan+UBSan, with guard zones, exact-size heap argument buffers and the allocator "
                 "tripwire armed; non-trivial and distinct as for C01",
         "assumptions": COMMON_ASSUME + ["sanitizer coverage is that of g++ 12 ASan/UBSan; intra-object overflow is only seen through state divergence"],
-        "quick": {"flavours": ["chk-asan", "off-asan"], "runs": 200000, "max_seconds": 40},
+        "quick": {"flavours": ["chk-asan", "off-asan"], "runs": 300000, "max_seconds": 40},
         "thorough": {"flavours": ["chk-asan", "off-asan", "chk-O2", "chk-O0"], "runs": 6000000, "max_seconds": 240,
                      "valgrind_runs": 600},
     },
@@ -126,7 +126,7 @@ PROPS = {
                 "an address-keyed lifetime registry, the live set inside each owner must equal [begin,end) after every step "
                 "and be empty after the owner's destructor; non-trivial and distinct as for C01",
         "assumptions": COMMON_ASSUME,
-        "quick": {"flavours": ["chk-O2"], "runs": 400000, "max_seconds": 40},
+        "quick": {"flavours": ["chk-O2"], "runs": 1200000, "max_seconds": 40},
         "thorough": {"flavours": ["chk-O2", "chk-asan", "off-asan", "chk-O0"], "runs": 12000000, "max_seconds": 240},
     },
     "C05": {
@@ -138,7 +138,7 @@ PROPS = {
                 "argument-visible violations, with the object unmodified; every valid step must not enter the handler; "
                 "non-trivial and distinct as for C01",
         "assumptions": COMMON_ASSUME,
-        "quick": {"flavours": ["chk-O2", "chk-asan"], "runs": 300000, "max_seconds": 40},
+        "quick": {"flavours": ["chk-O2", "chk-asan"], "runs": 600000, "max_seconds": 40},
         "thorough": {"flavours": ["chk-O2", "chk-asan", "safe-asan", "chk-O0"], "runs": 10000000, "max_seconds": 240},
     },
 }
